@@ -227,7 +227,8 @@ def execute(prog):
             for cut in op.get("direct_cuts", []):
                 buf = bytearray(final[:cut])
                 WORLD.probe("direct_decode")
-                k3, v3, n3 = meter.run(lambda: cls.unmarshall_datain(buf, **dk), BUDGET_BASE + BUDGET_PER_BYTE * len(buf))
+                use = dk if (cut % 2 == 0 or not dk) else {}      # also with the decoder's own default arguments
+                k3, v3, n3 = meter.run(lambda: cls.unmarshall_datain(buf, **use), BUDGET_BASE + BUDGET_PER_BYTE * max(len(buf), len(final)))
                 if k3 == "budget":
                     V.append(dict(oracle="C11.no-termination", where="direct", detail=cls.__name__,
                                   expected="%s.unmarshall_datain returns or raises within %d steps for %d bytes" % (cls.__name__, meter.budget, len(buf)),
